@@ -441,7 +441,7 @@ def ini_effective(doc):
 @st.composite
 def cases(draw, tier="quick", formats=("json", "json", "json", "yaml", "ini")):
     fmt = draw(st.sampled_from(list(formats)))
-    universe = draw(gen.key_universe(gen.ASCII_KEY_POOLS + [["firstName", "created_at", "é", "list", "id"]], min_size=2, max_size=6))
+    universe = draw(gen.key_universe(gen.ASCII_KEY_POOLS + [["firstName", "created_at", "é", "list", "id", '15"', '"raw', '"q"']], min_size=2, max_size=6))
     nmodels = draw(st.sampled_from([1, 1, 2, 3]))
     names = draw(st.lists(st.sampled_from(MODEL_NAMES), min_size=nmodels, max_size=nmodels, unique=True))
     specs = []
@@ -495,6 +495,11 @@ def cases(draw, tier="quick", formats=("json", "json", "json", "yaml", "ini")):
         specs[0]["files"][0] = {"as_list": True, "samples": [{"first": o1, "second": o2}]}
         o["merge"] = [["percent", 100 * shared / total if (100 * shared) % total else 100 * shared // total]]
         o["dkr"], o["dkf"] = [], []
+    if fmt != "ini" and draw(st.integers(0, 11)) == 0:
+        # a --dict-keys-fields name that starts / ends with a double quote (the name is the JSON key, character for character)
+        qk = draw(st.sampled_from(['"raw', 'raw"', '"q"', 'size 15"']))
+        specs[0]["files"][0] = {"as_list": True, "samples": [{qk: {"alpha": 1, "beta": 2}, "id": 1}, {qk: {"gamma": 3}, "id": 2}]}
+        o["dkr"], o["dkf"] = [], [qk]
     if fmt != "ini" and draw(st.integers(0, 11)) == 0:
         # thresholds of one percent and below: two objects sharing 1 of 20 keys (5 %) are similar under --merge percent_1 / _0.5 / _0.1
         ks = ["k%02d" % i for i in range(20)]
